@@ -38,7 +38,10 @@ pub struct Prog {
 }
 
 pub fn prepare(spec: &ProgSpec, layout: Layout) -> Result<Prog, &'static str> {
-    let built = proggen::build(spec);
+    prepare_built(proggen::build(spec), layout)
+}
+
+pub fn prepare_built(built: Built, layout: Layout) -> Result<Prog, &'static str> {
     let img = match refasm::judge(&built.program, built.stack) {
         Verdict::Accept(img) => img,
         Verdict::Reject(w) | Verdict::Unspecified(w) | Verdict::Either(_, w) => return Err(w),
@@ -159,6 +162,8 @@ pub struct ModelRun<'a> {
     pub effects: Vec<Effect>,
     /// (PC, word at PC) before each kept command
     pub pre: Vec<(u16, u16)>,
+    /// breakpoint list after each kept command
+    pub bps_after: Vec<Vec<u16>>,
     /// number of commands of the script that are kept (the history is cut at an ambiguous one)
     pub kept: usize,
     pub ambiguous: Option<&'static str>,
@@ -174,6 +179,7 @@ pub fn run_model<'a>(p: &Prog, cmds: &[Cmd], input: &'a [u8], budget: u64) -> Mo
     let mut states = Vec::new();
     let mut effects = Vec::new();
     let mut pre = Vec::new();
+    let mut bps_after = Vec::new();
     let mut kept = 0;
     let mut ambiguous = None;
     let mut ends_with_exit = false;
@@ -203,10 +209,11 @@ pub fn run_model<'a>(p: &Prog, cmds: &[Cmd], input: &'a [u8], budget: u64) -> Mo
         }
         kept += 1;
         pre.push(before);
+        bps_after.push(dbg.bps.iter().copied().collect());
         states.push(RegDump { r: dbg.vm.r, pc: dbg.vm.pc, cc: dbg.vm.cc });
         effects.push(eff);
     }
-    ModelRun { dbg, states, effects, pre, kept, ambiguous, ends_with_exit }
+    ModelRun { dbg, states, effects, pre, bps_after, kept, ambiguous, ends_with_exit }
 }
 
 /// Script text for the first `kept` commands, each followed by `registers` when `observe` is set.
@@ -253,6 +260,13 @@ pub fn outcome_of<'s>(obs: &mut Obs, id: &str, s: &'s Session, shown: &str) -> O
         obs.set_fail(format!("{id}:load-failed"), format!("the program could not be loaded\n{shown}"));
         return None;
     };
+    if let Stop::Panic(msg, _) = &out.stop {
+        if msg.contains("RTI") {
+            // the documented todo!() for RTI: outside every claim
+            obs.excluded = Some("rti");
+            return None;
+        }
+    }
     if let Stop::Panic(msg, loc) = &out.stop {
         obs.set_fail(format!("{id}:{}", crate::props::c01::panic_sig(msg, loc)), format!("panic: {msg} at {loc}\n{shown}"));
         return None;
@@ -402,5 +416,23 @@ pub fn make_eval_stmt(p: &Prog, r: &RawCmd) -> Stmt {
         21 => Stmt::new(Op::Br(((r.a % 7) + 1) as u8, true), &[], lbl(r.b)),
         22 => Stmt::simple([Op::Halt, Op::Rti][idx(r.b, 2)]),
         _ => Stmt::new(Op::Trap, &[], Operand::Lit(Lit::Hex([0x25u16, 0x00, 0x1F, 0x28, 0xFF, 0x21, 0x26][idx(r.b, 7)], 0))),
+    }
+}
+
+/// Mutating commands (C12, C13): move to registers and memory anywhere, goto, eval, plus
+/// execution and breakpoints.
+pub fn make_mutating_cmd(p: &Prog, r: &RawCmd) -> Cmd {
+    match r.kind % 16 {
+        0 | 1 => Cmd::Move(PLoc::Reg((r.a % 8) as u8), value16(r.b, r.c)),
+        2 | 3 | 4 => Cmd::Move(PLoc::Mem(make_loc(p, r.a, r.b, r.c, LocMode::Any)), value16(r.a >> 5, r.c)),
+        5 => Cmd::Move(PLoc::Mem(make_loc(p, r.a, r.b, r.c, LocMode::Code)), value16(r.a >> 5, r.c)),
+        6 | 7 => Cmd::Goto(make_loc(p, r.a, r.b, r.c, if r.kind & 16 == 0 { LocMode::Code } else { LocMode::Any })),
+        8 | 9 => Cmd::Eval(make_eval_stmt(p, r)),
+        10 => Cmd::StepInto(Some(1 + r.b % 20)),
+        11 => Cmd::Step,
+        12 => Cmd::Continue,
+        13 => Cmd::BreakAdd(make_loc(p, r.a, r.b, r.c, LocMode::Any)),
+        14 => Cmd::BreakRemove(make_loc(p, r.a, r.b, r.c, LocMode::Any)),
+        _ => Cmd::Reset,
     }
 }
